@@ -101,6 +101,17 @@ JSON_CFGS = ["{}", '{"BaseDir":"./"}', '{"IgnoreModules":["x"]}', "{", "[]", "",
              '{"GlobalVar":["("],"IgnoreVar":["*"],"AssocialList":["(", "txt"],"OtherDir":"("}']
 
 
+# statements whose shape is legal Lua but unusual: literal / parenthesised prefixes, _G in every position, self outside
+# methods, numeric and empty keys, calls on literals, deeply chained access (the analysis keeps name chains as strings)
+ODD_STATS = ['("_G").x = 1', '("a").b.c = 1', '_G["x"].y = 1', '("_G")["x"] = 1', '_G._G.x = 1', '_G = nil', '_G.x = _G',
+             'local _G = {} _G.y = 1', 'self.x = 1', 'self = 1', '("s"):rep(2).x = 1', '(f()).x = 1', '({}).x = 1', 'x[""] = 1',
+             'x[1][2][3] = 1', 'a.b.c.d.e.f = 1', 'function _G.f() end', 'function _G.a.b:c() end', 'function self:m() end',
+             'local t = {_G = 1, [_G] = 2, ["_G.x"] = 3}', '_G["a.b"] = 1', 't["!x"] = 1', 't["#int1"] = 1', 'x = ("_G").y',
+             'x = _G', 'x = _G._G._G', 'x = ("_G")', 'x = #_G', 'x = -_G.y', 'require("_G")', 'require(_G)', 'import("")',
+             'x = y.z.w()', 'x.y().z = 1', 'x:y().z = 1', 'local a <const>, b <close> = 1, nil', 'goto done ::done::',
+             'for _G = 1, 2 do end', 'for _G in pairs(_G) do end', 'local function _G() end', 'return _G']
+
+
 def gen_server(rng, tier):
     n = {"quick": 600, "thorough": 20000, "search": 300}[tier]
     out = []
@@ -115,6 +126,8 @@ def gen_server(rng, tier):
                 lines.insert(rng.randrange(len(lines) + 1), rng.choice(ANN_LINES))
             if rng.random() < 0.3:
                 lines.insert(0, 'local m = require("%s")' % rng.choice(["f0", "f1", "sub.f2", "nope", ""]))
+            for _ in range(rng.choice([0, 0, 0, 1, 2])):
+                lines.insert(rng.randrange(len(lines) + 1), rng.choice(ODD_STATS))
             text = "\n".join(lines)
             if rng.random() < 0.25:      # unsaved partial edit / damage
                 i = rng.randrange(len(text) + 1)
